@@ -105,12 +105,17 @@ def run(repo, rep):
     for base, nel, fn in container_scenarios(repo):
         tname = 'Sub_' + base
         v = ValueV('value', S.type_scenario(base, False), [Sym('x%d' % i) for i in range(nel)])
+        vn = ValueV('value', S.type_scenario(base, True), [Sym('x%d' % i) for i in range(nel)])
         kws = [{}]
         if 'trailing_comment' in fn.params:
             kws = [{'trailing_comment': NONE}, {'trailing_comment': SymStr('tc', nonempty=True)}]
         for kw in kws:
             try:
                 res = S.run_printer(repo, itb, fn, v, **kw)
+                native = {}
+                for prn, tn, _ in S.run_printer(repo, itb, fn, vn, **kw):
+                    if prn.raised is None and tn is not None:
+                        native[tuple(prn.facts)] = tn
             except Undecided as e:
                 rep.undecided('C08.b', '%s[%s,n=%d]' % (fn.name, base, nel), fn.where, str(e))
                 continue
@@ -129,6 +134,29 @@ def run(repo, rep):
                     inner = [a for a in t.args if isinstance(a, (D.Seq, D.Cat, D.AB, D.Grp, D.T))] or t.args
                     rep.check(len(t.args) == 1 and not t.kwargs, 'C08.b', lab + ':literal-arg', fn.where, 'one literal argument',
                               'subclass call has arguments %s %s' % (t.args, t.kwargs))
+                    tn = native.get(tuple(pr.facts))
+                    if tn is not None and len(t.args) == 1 and isinstance(t.args[0], D.T) and not isinstance(tn, D.Call) and base != 'frozenset':
+                        n += 1
+                        rep.check(t.args[0].key() == tn.key(), 'C08.b', lab + ':literal-equals-native', fn.where,
+                                  'inner literal is exactly what the built-in value would print as',
+                                  'the literal inside %s(...) is %s but a native %s prints as %s on the same path: the subclass instance '
+                                  'would not be reconstructed from the literal of its underlying value'
+                                  % (tname, D.show(t.args[0])[:120], base, D.show(tn)[:120]), nontrivial=True)
+    # children of containers are printed through the dispatching entry points (never a literal builder directly)
+    fd = S.printer_for(repo, 'dict')
+    for nk in (1, 2):
+        for native in (True, False):
+            d = ValueV('d', S.type_scenario('dict', native), [Sym('k%d' % i) for i in range(nk)])
+            for pr, t, ph in S.run_printer(repo, itb, fd, d, trailing_comment=NONE):
+                if pr.raised is not None or t is None or pr.assumed('depth_left', True):
+                    continue
+                inner = t.args[0] if isinstance(t, D.Call) and t.args and isinstance(t.args[0], D.T) else t
+                atoms = [a for seq in D.all_layouts(inner)[:1] for a in seq if isinstance(a, D.Lit)]
+                n += 1
+                rep.check(not atoms, 'C08.b', 'pretty_dict[n=%d,%s]{%s}:children-dispatched' % (nk, 'native' if native else 'subclass', _short(pr)), fd.where,
+                          'keys and values printed through pretty_python_value / the registered string printer',
+                          'a dict key or value is printed by a literal builder directly (%s): an instance of a str/bytes subclass used '
+                          'there loses its class' % [D.show(a) for a in atoms][:2], nontrivial=True)
     rep.floor('C08.b:containers', n, 40)
 
     # ---------------------------------------------------------------- C08.b strings
@@ -240,6 +268,23 @@ def run(repo, rep):
         rets = [src(r.value) for r in ast.walk(br.node) if isinstance(r, ast.Return) and r.value is not None]
         rep.check('%s.__repr__(%s)' % (br.params[0], br.params[1]) in rets, 'C08.c', '_builtin_repr:base-dunder', br.where,
                   'helper calls basetype.__repr__(value)', '_builtin_repr returns %s' % rets, nontrivial=True)
+        gb = Guards(br.node)
+        inst = 'isinstance(%s, %s)' % (br.params[1], br.params[0])
+        for r in ast.walk(br.node):
+            if isinstance(r, ast.Return) and r.value is not None:
+                fs = gb.of(r)
+                n += 1
+                if src(r.value) == '%s.__repr__(%s)' % (br.params[0], br.params[1]):
+                    ok = {(ff.text, ff.pol) for ff in fs} == {(inst, True)}
+                    rep.check(ok, 'C08.c', '_builtin_repr:base-dunder-for-every-instance', '%s:%d' % (br.module.relpath, r.lineno),
+                              'every instance of the base type gets the base repr',
+                              'the base-type repr is used only under %s: some subclass instances (e.g. with an inherited __repr__ override) '
+                              'still go through their own __repr__' % gb.texts(r), nontrivial=True)
+                else:
+                    ok = any((not ff.pol) and ff.text == inst for ff in fs)
+                    rep.check(ok, 'C08.c', '_builtin_repr:fallback-only-for-foreign-values', '%s:%d' % (br.module.relpath, r.lineno),
+                              'repr(value) only for values that are not instances of the base type',
+                              '_builtin_repr returns %s for instances of the base type (%s)' % (src(r.value), gb.texts(r)), nontrivial=True)
     rep.floor('C08.c', n, 4)
 
     # ---------------------------------------------------------------- C08.d
